@@ -68,6 +68,20 @@ def strategy(tier):
     return gen.weighted((8, seq), (1, exh))
 
 
+def fixed_cases(tier):
+    """More than 256 operations (26 jobs x 10 machines): sizes no generated
+    case reaches; completion exactly after the 260th dispatch."""
+    return [
+        {
+            "mode": "sequence",
+            "inst": gen.big_classic(26, 10),
+            "filters": None,
+            "history": [[(5 * k + 1) % 8, 0, 2 if k % 7 == 0 else 0] for k in range(260)],
+            "pre": 0,
+        }
+    ]
+
+
 def _check_state(ctx, inst, dispatcher, expected_count, n_ops, where):
     rows = fp.schedule_rows(dispatcher.schedule)
     probs = feasible.problems(inst["durations"], inst["machines"], rows)
